@@ -275,7 +275,7 @@ def judge_write(ctx, args, kwargs, result, exc, pre):
         elif attr in ("title", "artist"):
             from unidecode import unidecode
 
-            same = v in (w, unidecode(w).strip())
+            same = v in (w, unidecode(w).strip(), unidecode(w).replace("\n", " ").strip())
         elif attr == "tags":
             same = list(w) == list(v)
         elif attr in ("preview_time", "audio_lead_in"):
